@@ -177,11 +177,11 @@ TABLE = {
         cell('strip-Euler-Maclaurin', lambda r, b, p: C(fl(r.uniform(-1, 3), 20), fl(r.uniform(1.3, 20) * p, 30)), cost=3),
         cell('critical-line-EM', lambda r, b, p: C(HALF, fl(r.uniform(1.3, 20) * p, 30)), cost=3),
         cell('riemann-siegel-switch', lambda r, b, p: C(fl(r.uniform(0, 1), 20), fl(r.uniform(0.85, 1.2) * 500 * p, 40)),
-             precs=[10, 15, 24, 30, 53], cost=3),
+             precs=[10, 15, 24, 30, 53], cost=4),
         cell('riemann-siegel', lambda r, b, p: C(fl(r.uniform(-2, 3), 20), fl(r.uniform(1.2, 50) * 500 * p, 40)),
-             precs=[10, 15, 24, 30, 53, 64], cost=3),
+             precs=[10, 15, 24, 30, 53, 64], cost=4),
         cell('riemann-siegel-critical-line', lambda r, b, p: C(HALF, fl(10 ** r.uniform(4.7, 6.3), 40)),
-             precs=[10, 15, 24, 30, 53, 64], cost=3),
+             precs=[10, 15, 24, 30, 53, 64], cost=4),
         Cell('re-large-complex', args(lambda r, b: C(raw_rand(r, b, 5, 9, 0), raw_rand(r, b, -3, 6))), cost=2),
         Cell('imaginary-axis', args(lambda r, b: C((0, 0, 0, 0), raw_rand(r, b, -6, 5)))),
     ],
@@ -210,19 +210,21 @@ TABLE = {
         Cell('complex-s-complex-a', args(complex_in(-2, 2), lambda r, b: C(raw_rand(r, b, -2, 1, 0), raw_rand(r, b, -3, 1))), fn=_hurw, cost=2),
         cell('s-near-1', near_p(1, capped(lambda p: (3, p + 10))), real_in(-2, 4, 0), fn=_hurw, cost=2),
         Cell('tiny-value-large-a', args(real_in(1, 4, 0), real_in(6, 20, 0)), fn=_hurw, cost=2, oracle=_hurw_raised),
-        Cell('large-a-s<1', args(lambda r, b: R(fl(r.uniform(-3, 0.9), 30)), real_in(6, 20, 0)), fn=_hurw, cost=2),
+        Cell('large-a-s<1', args(lambda r, b: R(fl(r.uniform(-3, 0.9), 30)), real_in(6, 12, 0)), fn=_hurw, cost=3),
         cell('strip-large-im-real-a', lambda r, b, p: C(fl(r.uniform(0, 1), 20), fl(r.uniform(0.5, 3) * p, 30)),
              lambda r, b: R(fl(r.uniform(0.05, 2), 30)), fn=_hurw, cost=3),
     ],
     'zeta.derivative': [
-        Cell('d1-real', args(real_in(-3, 5)), fn=_zeta_d(1), cost=2),
+        Cell('d1-real', args(real_in(-3, 2)), fn=_zeta_d(1), cost=2),
+        Cell('tiny-value-d1-real-s', args(lambda r, b: R(fl(r.uniform(6, 40), 30))), fn=_zeta_d(1), cost=2),
         Cell('d1-int', args(integer(-30, 8)), fn=_zeta_d(1), cost=2),
         Cell('tiny-value-d1-int-s', args(integer(9, 60)), fn=_zeta_d(1), cost=2),
-        Cell('d1-complex', args(complex_in(-3, 4)), fn=_zeta_d(1), cost=2),
-        Cell('d2-real', args(real_in(-3, 5)), fn=_zeta_d(2), cost=2),
-        Cell('d2-complex', args(complex_in(-3, 4)), fn=_zeta_d(2), cost=2),
-        Cell('d3-4-real', args(real_in(-3, 4)), fn=_zeta_d(3), cost=2),
-        Cell('d5-complex', args(complex_in(-2, 3)), fn=_zeta_d(5), cost=3),
+        Cell('d1-complex', args(complex_in(-3, 2)), fn=_zeta_d(1), cost=2),
+        Cell('d2-real', args(real_in(-3, 2)), fn=_zeta_d(2), cost=2),
+        Cell('tiny-value-d2-real-s', args(lambda r, b: R(fl(r.uniform(6, 40), 30))), fn=_zeta_d(2), cost=2),
+        Cell('d2-complex', args(complex_in(-3, 2)), fn=_zeta_d(2), cost=2),
+        Cell('d3-real', args(real_in(-3, 2)), fn=_zeta_d(3), cost=2),
+        Cell('d5-complex', args(complex_in(-2, 2)), fn=_zeta_d(5), cost=3),
         cell('d1-near-pole', near_p(1, lambda p: (3, p // 2))),
         Cell('d1-critical-line', args(crit_line(-2, 6)), fn=_zeta_d(1), cost=2),
         Cell('d1-hurwitz-real-a', args(real_in(-2, 2), real_in(-2, 1, 0)), fn=_zeta_d(1), cost=2),
@@ -230,7 +232,7 @@ TABLE = {
         Cell('tiny-value-d1-hurwitz', args(lambda r, b: R(fl(r.uniform(6, 16), 30)), real_in(2, 5, 0)), fn=_zeta_d(1), cost=2),
         cell('d1-at-0-and-neg-int', ints(0, -1, -2, -3, -4, -10, -21), fn=_zeta_d(1), cost=2),
         cell('d1-riemann-siegel', lambda r, b, p: C(HALF, fl(r.uniform(1.2, 30) * 500 * p, 40)),
-             fn=_zeta_d(1), precs=[10, 15, 24, 30, 53], cost=3),
+             fn=_zeta_d(1), precs=[10, 15, 24, 30, 53], cost=4),
     ],
     'altzeta': [
         Cell('int', args(integer(-60, 80))),
@@ -254,14 +256,15 @@ TABLE = {
         Cell('chi1-is-zeta', args(real_in(-3, 5)), fn=_dirichlet([1]), cost=2),
         Cell('chi-mod4-real', args(real_in(-3, 5)), fn=_dirichlet([0, 1, 0, -1]), cost=2),
         Cell('chi-mod4-int', args(integer(-30, 40)), fn=_dirichlet([0, 1, 0, -1]), cost=2),
-        Cell('chi-mod4-complex', args(complex_in(-3, 4)), fn=_dirichlet([0, 1, 0, -1]), cost=2),
+        Cell('chi-mod4-complex', args(complex_in(-3, 4)), fn=_dirichlet([0, 1, 0, -1]), cost=3),
         Cell('chi-mod3-real', args(real_in(-3, 5)), fn=_dirichlet([0, 1, -1]), cost=2),
-        Cell('chi-mod5-complex-character', args(complex_in(-2, 3)), fn=_dirichlet([0, 1, 1j, -1j, -1]), cost=2),
+        Cell('chi-mod5-complex-character', args(complex_in(-2, 3)), fn=_dirichlet([0, 1, 1j, -1j, -1]), cost=3),
         Cell('chi-mod2-principal', args(real_in(-3, 5)), fn=_dirichlet([0, 1]), cost=2),
-        cell('chi-mod4-at-1', const(I(1)), fn=_dirichlet([0, 1, 0, -1]), cost=2),
+        cell('chi-mod4-at-1', const(I(1)), fn=_dirichlet([0, 1, 0, -1]), cost=3),
         cell('chi-mod4-near-1', near_p(1, lambda p: (3, 26)), fn=_dirichlet([0, 1, 0, -1]), cost=2),
-        cell('chi-mod4-near-trivial-zero', near_any([-1, -3, -5, -11], pk=lambda p: (4, 26)), fn=_dirichlet([0, 1, 0, -1]), cost=2),
-        Cell('chi-mod4-derivative-1', args(real_in(-2, 4)), fn=_dirichlet([0, 1, 0, -1], 1), cost=3),
+        cell('chi-mod4-near-trivial-zero', near_any([-1, -3, -5, -11], pk=lambda p: (4, 26)), fn=_dirichlet([0, 1, 0, -1]), cost=3),
+        Cell('chi-mod4-derivative-1', args(real_in(-2, 2)), fn=_dirichlet([0, 1, 0, -1], 1), cost=3),
+        Cell('tiny-value-chi-mod4-derivative-1', args(lambda r, b: R(fl(r.uniform(6, 16), 30))), fn=_dirichlet([0, 1, 0, -1], 1), cost=3),
         Cell('chi-mod4-critical-line', args(crit_line(-2, 5)), fn=_dirichlet([0, 1, 0, -1]), cost=2),
     ],
     'polylog': [
@@ -286,14 +289,16 @@ TABLE = {
         Cell('s=0,1,-1-closed-forms', args(integer(-1, 1), complex_in(-3, 4))),
         cell('z=+-1', lambda r, b, p: R(raw_rand(r, b, -3, 5)), ints(1, -1)),
         Cell('tiny-z', args(real_in(-3, 4), real_in(-60, -8))),
-        cell('nonint-s-series', uniform(-4.0, 8.0), polar(0.01, 0.88)),
+        cell('nonint-s-series', uniform(0.05, 8.0), polar(0.01, 0.88)),
+        cell('neg-nonint-s-series', uniform(-8.0, -0.05), polar(0.01, 0.88)),
         cell('nonint-s-0.9-switch', uniform(-3.0, 6.0), polar(0.86, 0.94), cost=4, precs=POLY_PRECS),
         cell('nonint-s-general-|log z|<5', uniform(-3.0, 6.0), polar(0.92, 140.0), cost=4, precs=POLY_PRECS),
         cell('nonint-s-general-log-switch', uniform(-3.0, 6.0), polar(120.0, 180.0), cost=3),
         cell('nonint-s-general-|log z|>5', uniform(-3.0, 6.0), polar(160.0, 10000.0), cost=3),
         cell('nonint-s-real-z>1', uniform(-3.0, 6.0), uniform(1.001, 100.0), cost=4, precs=POLY_PRECS),
         cell('nonint-s-real-z<-1', uniform(-3.0, 6.0), uniform(-100.0, -0.9), cost=4, precs=POLY_PRECS),
-        cell('complex-s-inside', lambda r, b, p: C(raw_rand(r, b, -2, 3), raw_rand(r, b, -2, 3)), polar(0.01, 0.88), cost=2),
+        cell('complex-s-inside', lambda r, b, p: C(raw_rand(r, b, -2, 3, 0), raw_rand(r, b, -2, 3)), polar(0.01, 0.88), cost=2),
+        cell('complex-s-neg-re-inside', lambda r, b, p: C(raw_rand(r, b, -2, 3, 1), raw_rand(r, b, -2, 3)), polar(0.01, 0.88), cost=2),
         cell('complex-s-outside', lambda r, b, p: C(raw_rand(r, b, -2, 3), raw_rand(r, b, -2, 3)), polar(0.92, 50.0), cost=4, precs=POLY_PRECS),
         cell('s-near-int', near_any([2, 3, 5, -1, -2], pk=lambda p: (6, 26)), polar(0.92, 30.0), cost=4, precs=POLY_PRECS),
         Cell('large-s', args(real_in(5, 9, 0), complex_in(-2, 3)), cost=4, precs=POLY_PRECS),
@@ -350,12 +355,12 @@ TABLE = {
         Cell('n-real-a', args(integer(0, 8), real_in(-2, 4, 0)), fn=_stieltjes_a, cost=4, tmax=60),
     ],
     'primezeta': [
-        Cell('real>1', args(lambda r, b: R(fl(r.uniform(1.05, 40), max(8, min(b, 53))))), cost=3),
-        Cell('int', args(integer(2, 80)), cost=3),
-        cell('real-around-prec', lambda r, b, p: R(fl(p * r.uniform(0.7, 1.4), 30)), cost=3),
-        cell('near-1', near_p(1, capped(lambda p: (3, 30))), cost=3),
-        Cell('real-0.5..1', args(lambda r, b: R(fl(r.uniform(0.52, 0.98), 30))), cost=3),
-        Cell('complex', args(lambda r, b: C(raw_rand(r, b, 0, 4, 0), raw_rand(r, b, -3, 4))), cost=3),
+        Cell('real>1', args(lambda r, b: R(fl(r.uniform(1.05, 40), max(8, min(b, 53))))), cost=4, precs=J.PRECS_XHEAVY),
+        Cell('int', args(integer(2, 80)), cost=2),
+        cell('real-around-prec', lambda r, b, p: R(fl(p * r.uniform(0.7, 2.4), 30)), cost=3),
+        cell('near-1', near_p(1, capped(lambda p: (3, 30))), cost=4, precs=J.PRECS_XHEAVY),
+        Cell('real-0.5..1', args(lambda r, b: R(fl(r.uniform(0.52, 0.98), 30))), cost=4, precs=J.PRECS_XHEAVY),
+        Cell('complex', args(lambda r, b: C(raw_rand(r, b, 0, 4, 0), raw_rand(r, b, -3, 4))), cost=4, precs=J.PRECS_XHEAVY),
     ],
     'siegeltheta': [
         Cell('real', args(real_in(-4, 8))),
@@ -372,21 +377,21 @@ TABLE = {
         cell('near-zero', lambda r, b, p: near_c(r.choice([Z['zetazero1'], Z['zetazero2'], Z['zetazero3']]), 256, 6, 26)(r, b, p), cost=2),
         cell('real-up-to-prec', lambda r, b, p: R(fl(r.uniform(0.5, 1.0) * p, 30)), cost=2),
         cell('real-Euler-Maclaurin', lambda r, b, p: R(fl(r.uniform(1.3, 20) * p, 30)), cost=3),
-        cell('riemann-siegel-switch', lambda r, b, p: R(fl(r.uniform(0.85, 1.2) * 500 * p, 40)), precs=[10, 15, 24, 30, 53], cost=3),
-        cell('riemann-siegel', lambda r, b, p: R(fl(r.uniform(1.2, 40) * 500 * p, 40)), precs=[10, 15, 24, 30, 53, 64], cost=3),
+        cell('riemann-siegel-switch', lambda r, b, p: R(fl(r.uniform(0.85, 1.2) * 500 * p, 40)), precs=[10, 15, 24, 30, 53], cost=4),
+        cell('riemann-siegel', lambda r, b, p: R(fl(r.uniform(1.2, 40) * 500 * p, 40)), precs=[10, 15, 24, 30, 53, 64], cost=4),
         Cell('complex', args(complex_in(-3, 4)), cost=2),
         Cell('derivative-1', args(real_in(-3, 6)), fn=_siegelz_d1, cost=3),
         Cell('tiny', args(real_in(-60, -5)), cost=2),
     ],
     'riemannr': [
-        Cell('moderate', args(real_in(-6, 10, 0))),
-        cell('around-0.01', uniform(0.004, 0.03)),
-        Cell('small', args(real_in(-40, -7, 0))),
+        Cell('moderate', args(real_in(-6, 10, 0)), cost=2),
+        cell('around-0.01', uniform(0.004, 0.03), cost=2),
+        Cell('small', args(real_in(-40, -7, 0)), cost=2),
         cell('tiny', real_p(lambda p: (-p - 60, -40), 0), cost=2),
-        cell('around-1000', uniform(800.0, 1300.0)),
-        Cell('large', args(real_in(10, 40, 0))),
+        cell('around-1000', uniform(800.0, 1300.0), cost=2),
+        Cell('large', args(real_in(10, 40, 0)), cost=2),
         cell('asymptotic-switch', real_p(lambda p: (2 * p - 30, 2 * p + 40), 0), cost=2),
-        Cell('near-1', args(near(1, 1, 4, 40))),
+        Cell('near-1', args(near(1, 1, 4, 40)), cost=2),
         Cell('complex', args(complex_in(-3, 8)), cost=2),
         Cell('negative', args(real_in(-4, 8, 1)), cost=2),
     ],
